@@ -90,6 +90,7 @@ let pair_of s = match String.split_on_char ':' s with
 
 let hist_cfg : M.config ref = ref { M.cfg_auto_bucket = false; cfg_versioned = true; cfg_pages = true; cfg_fail_unimpl_page = false }
 let hist_state : M.hstate ref = ref M.hinit
+let hist_nomodel = ref false
 let walk_pages : M.page_obs list ref = ref []
 let walk_full : M.page_obs option ref = ref None
 let walk_mode = ref 0 (* 0 none, 1 collecting pages, 2 next list is the full listing *)
@@ -178,7 +179,7 @@ let verdict_tagged lineno (l : M.n list list) =
 let hist lineno (f : string array) =
   match f.(1) with
   | "H" ->
-    ew_mode := 0;
+    ew_mode := 0; hist_nomodel := false;
     hist_cfg := parse_cfg f.(3);
     let pre = if Array.length f > 4 then List.map bytes_of_hex (split_on ',' f.(4)) else [] in
     let fs = (String.length f.(2) >= 2 && (String.sub f.(2) 0 2 = "fs" || String.sub f.(2) 0 2 = "sf")) in
@@ -186,6 +187,16 @@ let hist lineno (f : string array) =
         { hs with M.hs_model = fst (M.create_bucket hs.M.hs_model b) }) (M.hinit_fs fs) pre;
     walk_mode := 0; print_string "SKIP\n"
   | "E" -> print_string "SKIP\n"
+  | "NOMODEL" -> hist_nomodel := true; print_string "SKIP\n"
+  | "FRAME" ->
+    let allowed = List.map bytes_of_hex (split_on ',' f.(2)) in
+    let refused = bool_of_field f.(3) in
+    let snap s = List.map pair_of (split_on ',' s) in
+    let r = M.frame_check allowed refused (snap f.(4)) (snap f.(5)) in
+    let strs = List.map string_of_bytes r in
+    if strs = [] then print_string "OK\n"
+    else Printf.printf "FAIL\t%d\tmodel=-\tspec=%s\t%s\n" lineno (String.concat "," strs) (raw_of_hex f.(6))
+  | "O" when !hist_nomodel -> print_string "SKIP\n"
   | "O" ->
     let ai = arrow_index f in
     let o = parse_hop f and ob = parse_obs f (ai + 1) in
